@@ -145,13 +145,20 @@ func Harness_C08_negotiate() {
 		}
 	}
 	zzverif.Region("depth-limit-with-a-want-that-is-an-ancestor-of-another-want", depth > 0 && nestedWants)
+	// nested=1 narrows the space to requests in which one want is an ancestor of another
+	// and the client has nothing (the shapes in which a depth limit is counted from
+	// several tips at once); used with the wants' map order as a choice point
+	focus := zzverif.Param("nested", 0) == 1
+	if focus {
+		zzverif.Assume(nestedWants)
+	}
 	var haves [][]byte
 	for i := 0; i < n; i++ {
-		if zzverif.Bool("have") {
+		if !focus && zzverif.Bool("have") {
 			haves = append(haves, g.sums[i])
 		}
 	}
-	if zzverif.Bool("unknownHave") {
+	if !focus && zzverif.Bool("unknownHave") {
 		haves = append(haves, bytes.Repeat([]byte{0xee}, 16))
 	}
 	fromRef := func(x int) bool {
